@@ -210,6 +210,12 @@ class Ledger:
             return self.v_callers_dominated(site, e)
         if tac == "field-writers":
             return self.v_field_writers(site, e)
+        if tac == "guarded-mul":
+            return self.v_guarded_mul(site, e)
+        if tac == "nonempty-const-arg":
+            return self.v_nonempty_const_arg(site, e)
+        if tac == "not-in-loop":
+            return self.v_not_in_loop(site, e)
         if tac == "conditional":
             # discharged by another rule of another property (named in `on`); nothing to verify locally
             return True, "conditional on %s" % e.get("on")
@@ -222,6 +228,25 @@ class Ledger:
                 if outcome in (None, "any"):
                     if fn.dominates(b, bb):
                         return b
+                elif outcome in ("true", "false"):
+                    nb = t.get("t")
+                    if nb is None:
+                        continue
+                    tt = fn.term(nb)
+                    # allow one negation in between (`if !x()`)
+                    if tt["k"] == "switch" and op_local(tt["a"]) is not None:
+                        ce = fn.expr(tt["a"], 3)
+                        neg = ce[0] == "un" and ce[1] == "Not"
+                        base = ce[2] if neg else ce
+                        if base[0] == "call" and base[1] == c:
+                            tg = {v: x for v, x in tt["targets"]}
+                            t_true = tt["otherwise"] if 0 in tg else tg.get(1)
+                            t_false = tg.get(0, tt["otherwise"])
+                            if neg:
+                                t_true, t_false = t_false, t_true
+                            tgt = t_true if outcome == "true" else t_false
+                            if tgt is not None and (tgt == bb or fn.dominates(tgt, bb)):
+                                return b
                 else:
                     tgt = kit.ok_target_of_call(fn, b)
                     if tgt is not None and (tgt == bb or fn.dominates(tgt, bb)):
@@ -286,6 +311,56 @@ class Ledger:
                     out.add(c)
                     work.append(c)
         return out
+
+    def v_guarded_mul(self, site, e):
+        """a * b dominated by the false edge of `a > K / b` (K a constant within the type)"""
+        if len(site.operands) != 2:
+            return False, "not a binary site"
+        a, b = site.operands
+        ty = (site.extra.get("ty") or "").replace("&", "")
+        for c, v in self._dom_constraints(site.fn, site.bb):
+            if c[0] == "bin" and c[1] in ("Gt", "Le") and ((c[1] == "Gt" and v == 0) or (c[1] == "Le" and v != 0)):
+                lhs, rhs = c[2], c[3]
+                if _same(lhs, a) and rhs[0] in ("bin", "checked") and rhs[1] == "Div" and rhs[2][0] == "const" and _same(rhs[3], b):
+                    if ty in TY_RANGE and rhs[2][1] <= TY_RANGE[ty][1]:
+                        return True, "dominated by !(%s)" % expr_str(c, 80)
+        return False, "no dominating `a > K / b` test with these operands"
+
+    def v_nonempty_const_arg(self, site, e):
+        """every call site of the site's function passes, as argument `param`, a const item whose initialiser is a non-empty array"""
+        from .interp import Resolver
+        if not hasattr(self, "_res"):
+            self._res = Resolver(self.ctx)
+        idx = e["param"]
+        sites = self._res.call_sites(site.fn.name)
+        if not sites:
+            return False, "no call sites"
+        names = []
+        for caller, t in sites:
+            a = t["args"][idx]
+            nm = a.get("uneval") if a.get("k") == "const" else None
+            if nm is None:
+                x = caller.expr(a, 4)
+                nm = x[1] if x[0] == "uneval" else None
+            init = self.prog.consts_hir.get(nm) if nm else None
+            if not (isinstance(init, list) and len(init) >= 1):
+                return False, "call site in %s passes %s, not a non-empty const array" % (short(caller.name), nm)
+            names.append("%s(len %d)" % (short(nm).split("::")[-1], len(init)))
+        return True, "arguments: %s" % names
+
+    def v_not_in_loop(self, site, e):
+        """the site's function is never called from inside a loop (so a per-command counter stays small)"""
+        target = site.fn.name
+        for caller in self.ctx.cg.callers(target):
+            f = self.prog.fns.get(caller)
+            if f is None or f.bkind != "fn":
+                continue
+            lps = kit.loops(f)
+            for b, t, c in f.calls():
+                if c == target and any(b in body for h, (body, l) in lps.items()):
+                    return False, "called inside a loop of %s" % short(caller)
+        n = sum(1 for caller in self.ctx.cg.callers(target) for b, t, c in self.prog.fns[caller].calls() if c == target) if True else 0
+        return True, "%d call sites, none inside a loop" % n
 
     def v_field_writers(self, site, e):
         adt, field, allowed = e["adt"], e["field"], set(e["writers"])
@@ -600,6 +675,10 @@ class Ledger:
                 a = self.ival(fn, site.operands[0], cons)
                 if a and a[0] > tr[0]:
                     return "interval: operand in [%d,%d] excludes %s::MIN" % (a[0], a[1], ty)
+        if site.kind in ("divisionbyzero", "overflow:Div", "overflow:Rem", "remainderbyzero") and site.operands:
+            d = self.ival(fn, site.operands[-1], cons)
+            if d and (d[0] > 0 or d[1] < -1):
+                return "interval: divisor in [%d,%d] excludes 0 and -1" % (d[0], d[1])
         if site.kind == "checked-std:abs" and site.operands:
             m = re.search(r"<impl (\w+)>::abs$", site.extra.get("callee", ""))
             a = None
